@@ -139,7 +139,9 @@ impl<'a> TransportFeedback<'a> {
         if parser::parse_count(self.data) != F::FCI_FORMAT {
             return Err(RtcpParseError::WrongImplementation);
         }
-        F::parse(&self.data[12..])
+        // the padding was validated against the packet length in `check_packet`
+        let end = self.data.len() - self.padding().unwrap_or(0) as usize;
+        F::parse(&self.data[12..end])
     }
 }
 
@@ -335,7 +337,9 @@ impl<'a> PayloadFeedback<'a> {
         if parser::parse_count(self.data) != F::FCI_FORMAT {
             return Err(RtcpParseError::WrongImplementation);
         }
-        F::parse(&self.data[12..])
+        // the padding was validated against the packet length in `check_packet`
+        let end = self.data.len() - self.padding().unwrap_or(0) as usize;
+        F::parse(&self.data[12..end])
     }
 }
 
